@@ -11,7 +11,7 @@
 use super::*;
 use crate::verif_common::numlook;
 use crate::verif_common::stdlite;
-use crate::verif_common::{any_utf8, as_str, e2e_string_mismatch, e2e_true_string, eq_ci};
+use crate::verif_common::{any_utf8, as_str, e2e_string_mismatch, e2e_true_string, e2e_true_untyped, e2e_untyped_mismatch, eq_ci};
 
 fn is_indicator_start(c: u8) -> bool {
     matches!(
@@ -220,7 +220,7 @@ fn key_plain_n<const N: usize>() {
     if is_plain_safe(s) {
         let ok = plain_reads_back(&a, true, false, false);
         assert!(
-            ok || !e2e_string_mismatch(s, 3, false, false),
+            ok || !(e2e_string_mismatch(s, 3, false, false) || e2e_untyped_mismatch(s, 3, false)),
             "a mapping key is emitted plain although the plain form does not read back as the same string"
         );
         kani::cover!(true, "some key is plain-safe");
@@ -240,6 +240,8 @@ fn value_plain_n<const N: usize>() {
             e2e_string_mismatch(s, 0, false, yaml_12)
                 || e2e_string_mismatch(s, 1, false, yaml_12)
                 || e2e_string_mismatch(s, 2, false, yaml_12)
+                || e2e_untyped_mismatch(s, 0, yaml_12)
+                || e2e_untyped_mismatch(s, 2, yaml_12)
         };
         assert!(
             ok || !confirmed,
@@ -247,6 +249,36 @@ fn value_plain_n<const N: usize>() {
         );
         kani::cover!(in_flow, "plain in flow context");
         kani::cover!(!in_flow && yaml_12, "plain in block context, YAML 1.2 mode");
+    }
+}
+
+/// Word-like tokens (ASCII letters, '~', '.', '+', '-'): look-alikes of null / booleans / special
+/// floats in every letter case, at lengths the all-UTF-8 harnesses do not reach.
+fn wordlike_n<const N: usize>() {
+    let a: [u8; N] = kani::any();
+    let mut i = 0;
+    while i < N {
+        let c = a[i];
+        let ok = (c >= b'a' && c <= b'z') || (c >= b'A' && c <= b'Z') || c == b'~' || c == b'.' || c == b'+' || c == b'-';
+        kani::assume(ok);
+        i += 1;
+    }
+    let s = as_str(&a);
+    let yaml_12: bool = kani::any();
+    if is_plain_safe(s) {
+        let ok = plain_reads_back(&a, true, false, false);
+        assert!(ok || !(e2e_string_mismatch(s, 3, false, false) || e2e_untyped_mismatch(s, 3, false)), "a word-like key is emitted plain although it reads back as something else");
+    }
+    if is_plain_value_safe(s, yaml_12, false) {
+        let ok = plain_reads_back(&a, false, false, yaml_12);
+        let confirmed = e2e_string_mismatch(s, 0, false, yaml_12)
+            || e2e_string_mismatch(s, 2, false, yaml_12)
+            || e2e_untyped_mismatch(s, 0, yaml_12)
+            || e2e_untyped_mismatch(s, 2, yaml_12);
+        assert!(ok || !confirmed, "a word-like value is emitted plain although it reads back as something else");
+        kani::cover!(true, "some word is plain-safe");
+    } else {
+        kani::cover!(true, "some word must be quoted");
     }
 }
 
@@ -258,7 +290,9 @@ macro_rules! quoting_harness {
         #[kani::stub(core::str::pattern::simd_contains, stdlite::simd_contains)]
         #[kani::stub(alloc::fmt::format, stdlite::format_stub)]
         #[kani::stub(is_numeric_looking, numlook::numeric_looking)]
+        #[kani::stub(str::trim, stdlite::trim_exact)]
         #[kani::stub(e2e_string_mismatch, e2e_true_string)]
+        #[kani::stub(e2e_untyped_mismatch, e2e_true_untyped)]
         fn $name() {
             $f::<$n>()
         }
@@ -273,6 +307,8 @@ quoting_harness!(c12_value_plain_1, value_plain_n, 1, 9);
 quoting_harness!(c12_value_plain_2, value_plain_n, 2, 9);
 quoting_harness!(c12_value_plain_3, value_plain_n, 3, 9);
 quoting_harness!(c12_value_plain_4, value_plain_n, 4, 10);
+quoting_harness!(c12_wordlike_4, wordlike_n, 4, 10);
+quoting_harness!(c12_wordlike_5, wordlike_n, 5, 11);
 
 // concrete-playback slot: bin/check writes the solver counterexample here as a unit test for native replay
 include!("/verif/.build/playback/ser_quoting_pb.rs");
